@@ -45,7 +45,7 @@ def main():
         "hooks": {
             "guard": "kani",
             "enable": "no source hooks are committed in /repo: harness modules under /verif/harness/splice are appended, "
-                      "inside #[cfg(kani)], to a scratch copy of /repo's working tree on every run; cfg(kani) is set only by the Kani compiler",
+                      "inside #[cfg(kani)], to a scratch copy of /repo's working tree on every run; cfg(kani) is set only by the Kani compiler. Two textual substitutions are applied to the scratch copy (never to /repo) and listed in the evidence: the HashMap import of passkey-transports/src/hid.rs (model under cfg(kani)) and the five string-scanning call sites of public-suffix/src/lib.rs (byte-loop models under cfg(kani), the std calls natively)",
             "baseline_off_cmd": "cd /repo && cargo test --workspace --no-fail-fast --offline",
             "source_commits": [],
             "add_only": True,
